@@ -26,6 +26,8 @@ fn concretise_line(ln: &Value, i: usize) -> String {
             "colon" => format!(":NOT A TAG {}", i),
             "marker" => format!("SEE :20: ABOVE {}", i),
             "dashy" => format!("-BULLET {}", i),
+            "nearmarker" => ":20ABC NO COLON".to_string(),
+            "nearnumbered" => ":50#12".to_string(),
             "enddash" => format!("REF PO-2024-{}-", i),
             _ => format!("CONT LINE {}", i),
         },
